@@ -201,6 +201,109 @@ def classify(got, model_line, xor):
     return viol, known
 
 
+STD_ALPHA = b"ABCDEFGHIJKLMNOPQRSTUVWXYZabcdefghijklmnopqrstuvwxyz0123456789+/"
+
+
+def b64enc(alpha, data):
+    import base64
+    return bytes.translate(base64.b64encode(bytes(data)), bytes.maketrans(STD_ALPHA + b"=", bytes(alpha) + b"="))
+
+
+def gen_b64_case(r, cid):
+    n = r.choice([1, 1, 2, 2, 3, 4, 5, 6, 8, 11])
+    s = [r.choice(ALPHA) if r.random() < 0.7 else r.randint(0, 255) for _ in range(n)]
+    enc = r.choice(["", "a", "w", "a,w"])
+    b64 = r.choice(["b", "B", "b,B"])
+    if r.random() < 0.35:
+        al = list(STD_ALPHA)
+        r.shuffle(al)
+        if r.random() < 0.5:
+            for ch in r.sample(list(b"!@#$%^&*(){}[].,|\\\"'? "), 6):
+                al[r.randint(0, 63)] = ch
+            if len(set(al)) < 64:
+                al = list(STD_ALPHA); r.shuffle(al)
+        alpha = bytes(al)
+    else:
+        alpha = None
+    a = alpha or STD_ALPHA
+    mods = []
+    if "a" in enc.split(","):
+        mods.append("ascii")
+    if "w" in enc.split(","):
+        mods.append("wide")
+    for t in b64.split(","):
+        name = "base64" if t == "b" else "base64wide"
+        mods.append(name + ('("%s")' % esc(alpha) if alpha else ""))
+    if alpha and len(b64.split(",")) == 2:
+        pass                                   # both must use the same alphabet (compiler rule); they do
+    plains = []
+    if "w" in enc.split(","):
+        plains.append(widen(s))
+    if "a" in enc.split(",") or "w" not in enc.split(","):
+        plains.append(s)
+    buf = []
+    for _ in range(r.randint(1, 4)):
+        pl = r.choice(plains + [s, widen(s)])
+        pre = [r.randint(0, 255) for _ in range(r.choice([0, 1, 2, 3, 4, 5]))]
+        post = [r.randint(0, 255) for _ in range(r.choice([0, 1, 2, 3, 7]))]
+        if r.random() < 0.2:
+            pl = pl[:-1] + [pl[-1] ^ 1]          # near miss
+        e = list(b64enc(a if r.random() < 0.85 else STD_ALPHA, pre + pl + post))
+        if r.random() < 0.5:
+            e = widen(e)
+        buf += [r.choice([0x20, 0x2E, 0x41])] * r.randint(0, 3) + e
+    buf = buf[:240]
+    src = 'rule r { strings: $a = "%s" %s condition: #a >= 0 }' % (esc(s), " ".join(mods))
+    hline = "%s src=%s buf=%s" % (cid, hx(src.encode()), hx(buf))
+    dline = "%s mods=%s alpha=%s s=%s buf=%s" % (cid, ",".join([x for x in enc.split(",") if x] + b64.split(",")), hx(alpha) if alpha else "-", hx(s), hx(buf))
+    return dict(id=cid, s=hx(s), mods=" ".join(mods), buf=hx(buf)), hline, dline
+
+
+def run_b64(chk, b, tier, r):
+    n = 600 if tier == "quick" else 30000
+    cases, hl, dl = [], [], []
+    for i in range(n):
+        c, h, d = gen_b64_case(r, "b%d" % i)
+        cases.append(c); hl.append(h); dl.append(d)
+    impl, rc, err = core.run_parallel([b["h_scan"]], hl)
+    model, _, _ = core.run_parallel([core.driver_path(), "b64"], dl)
+    mi = {l.split(" ", 1)[0]: l for l in impl}
+    mm = {l.split(" ", 1)[0]: l for l in model}
+    nviol, nmatch, errs = 0, 0, {}
+    if rc != 0:
+        chk.violation("b64_crash.json", {"kind": "crash/sanitizer (base64 campaign)", "rc": rc, "stderr": err, "harness": "h_scan"})
+        nviol += 1
+    for c, h, d in zip(cases, hl, dl):
+        il, ml = mi.get(c["id"]), mm.get(c["id"])
+        if il is None or ml is None:
+            continue
+        got, _ = parse_matches(il)
+        if got is None:
+            errs[il.split(" ", 2)[1] + " " + il.split(" ")[2]] = errs.get(il.split(" ", 2)[1] + " " + il.split(" ")[2], 0) + 1
+            if nviol < 5:
+                chk.violation("b64_compile_%d.json" % nviol, {"kind": "legal base64 string rejected / scan error", "case": c, "harness": "h_scan", "engine": "b64",
+                                                               "harness_line": h, "driver_line": d, "implementation": il})
+                nviol += 1
+            continue
+        spec = parse_occ(ml.split()[1])
+        g = [] if got == "m=-" else [x.split(":") for x in got[2:].split(";")]
+        why = []
+        offs = [int(x[0]) for x in g]
+        if offs != sorted(set(offs)) or offs != sorted(spec):
+            why.append("offsets %s, documented %s" % (offs, sorted(spec)))
+        for o, ln, k in g:
+            if int(o) in spec and ln not in spec[int(o)]:
+                why.append("length %s at %s not admissible %s" % (ln, o, sorted(spec[int(o)])))
+        if spec:
+            nmatch += 1
+        if why and nviol < 8:
+            chk.violation("b64_diff_%d.json" % nviol, {"kind": "base64 string: reported matches differ from the documented permutations", "case": c, "harness": "h_scan",
+                                                       "engine": "b64", "harness_line": h, "driver_line": d, "implementation": got, "spec": ml, "why": why})
+            nviol += 1
+    chk.cov["base64"] = {"cases": len(cases), "with_matches": nmatch, "violations": nviol, "compile_errors": errs}
+    return nviol > 0
+
+
 def run(tier, replay=None):
     chk = core.Check("C01", tier)
     lres = core.lean_check(THM)
@@ -299,6 +402,8 @@ def run(tier, replay=None):
                             "(all encodings, case flips, keys at/just outside range borders, truncated/near-miss, fullword delimiters); non-trivial = spec reports >=1 match",
                     "traces_validated_against_impl": len(cases) - nviol, "compile_errors": errs,
                     "samples": [{"case": cases[0], "implementation": impl[0] if impl else None, "spec": model[0] if model else None}]})
+    if lres.get("driver_ok") and not replay:
+        found = run_b64(chk, b, tier, r) or found
     listed = {f["id"]: f for f in core.known_findings("C01")}
     for fid, hits in sorted(khits.items()):
         if fid in listed:
